@@ -154,21 +154,31 @@ def run_property(prop, tier, seed, replay=None):
                 if hit:
                     kf_hits[hit["id"]] = kf_hits.get(hit["id"], 0) + 1
                     continue
-                pending_oracle.append((mr, c))
+                pending_oracle.append((mr, c, r))
             else:
                 disagreements += 1
-                pending_corr.append((mr, c))
+                pending_corr.append((mr, c, r))
 
         # every case has been judged; minimise and report a few of each kind (oracle rejections first)
-        for mr_, c in pending_oracle[:4]:
+        for mr_, c, r_orig in pending_oracle[:4]:
             small = core.shrink(mr_.model, c, lambda j: not j[1], mr_.impl_env, mr_.spec_needs_impl) if mr_.shrinkable else c
-            r2, _ = core.run_cases(mr_.model, [small], mr_.impl_env, mr_.spec_needs_impl)
+            if small is c:
+                r2 = [r_orig]       # report the run that failed, not a re-run (timing-dependent scenarios)
+            else:
+                r2, _ = core.run_cases(mr_.model, [small], mr_.impl_env, mr_.spec_needs_impl)
+                if core.judge(r2[0])[1]:
+                    small, r2 = c, [r_orig]   # the minimised case does not fail any more: keep the original
             p = core.write_replay(prop.id, seed, "oracle", small, r2[0],
                                   "the implementation's answers violate the property's spec oracle")
             violations.append((p, ""))
-        for mr_, c in pending_corr[: (2 if pending_oracle else 4)]:
+        for mr_, c, r_orig in pending_corr[: (2 if pending_oracle else 4)]:
             small = core.shrink(mr_.model, c, lambda j: not j[0], mr_.impl_env, mr_.spec_needs_impl) if mr_.shrinkable else c
-            r2, _ = core.run_cases(mr_.model, [small], mr_.impl_env, mr_.spec_needs_impl)
+            if small is c:
+                r2 = [r_orig]
+            else:
+                r2, _ = core.run_cases(mr_.model, [small], mr_.impl_env, mr_.spec_needs_impl)
+                if core.judge(r2[0])[0]:
+                    small, r2 = c, [r_orig]
             p = core.write_replay(prop.id, seed, "corr", small, r2[0],
                                   f"correspondence:{mr_.model} – model and implementation disagree; "
                                   "the spec oracle accepts the implementation's answers on this case")
